@@ -21,6 +21,8 @@ def own_outcome_ok(kind, e, he, res, err):
     """Is (he, res, err) the target's own outcome?"""
     ending, idx = ENDINGS[e]
     pers = wsim.is_persistent(kind)
+    if not transferable(e) and not wsim.is_thread_kind(kind) and he is True and res is None and err is None:
+        return True         # a value/exception that cannot be transferred is reported as "failed, no error object"
     if ending == 0:
         if he is not False or err is not None:
             return False
@@ -91,6 +93,13 @@ def judge(rec, kind, e):
     if phase in ("after-target", "unknown"):
         if not (own or is_wte or unreported):
             return "c03.outcome-neither-own-nor-terminated|%s" % phase, True
+        if phase == "after-target" and unreported and not own:
+            # the target had finished on its own, yet its outcome is gone: "nothing else is possible" read strictly.
+            # The signature names where the exception landed, so that the inherent windows that are recorded as
+            # findings (landing inside the very code that reports the outcome) never cover a new one.
+            fn = (rec.get("label") or "?").split(":")[0]
+            how = "returned" if ENDINGS[e][0] == 0 else "raised"
+            return "c03.own-outcome-lost-after-target|target-%s|landing@%s" % (how, fn), True
         return None, True
     # the work had ended on its own before the landing point was reached
     if not own:
@@ -124,7 +133,7 @@ h_thread, h_process, h_remote, h_pthread, h_pprocess, h_premote = [make_h(k) for
 def _harness(kind):
     name = wsim.KIND_NAMES[kind]
     params = OrderedDict([("e", (0, len(ENDINGS) - 1)), ("k", (0, KMAX[kind]))])
-    quick = {"ranges": {"e": (0, 8)}, "partition": ["e"], "filter": (lambda f: f["e"] in (0, 3, 7, 8)), "timeout": 300, "twin_fixed": {"e": 0}}
+    quick = {"ranges": {"e": (0, 8)}, "partition": ["e"], "filter": (lambda f: f["e"] in (0, 3, 6, 7, 8)), "timeout": 300, "twin_fixed": {"e": 0}}
     thorough = {"partition": ["e"], "timeout": 900, "twin_fixed": {"e": 0}}
     return Harness(name, "vf.props.c03:h_%s" % name, params, tiers={"quick": quick, "thorough": thorough},
                    functions=_FUNCS + ["pyworkers.utils:foreign_raise"])
